@@ -72,7 +72,7 @@ Proof. vm_compute. repeat split. Qed.
 
 (* ---- an aliased model: X, Y, Z over 3 periods; constructor keywords through aliases *)
 Definition mA : res :=
-  alias_init_model am3 CModel [2000; 2001; 2002]%Z false RFloat fl0 ["X"; "Y"; "Z"]
+  alias_init_model [] am3 CModel [2000; 2001; 2002]%Z false RFloat fl0 ["X"; "Y"; "Z"]
                    [("B", ints [1; 2; 3]%Z); ("Z", OScalar (PInt 7)); ("X", ints [4; 5; 6]%Z)].
 
 Example mA_constructed :
@@ -82,8 +82,13 @@ Example mA_constructed :
   assoc "B" (vars (fst mA)) = None /\ assoc "A" (vars (fst mA)) = None.
 Proof. vm_compute. repeat split. Qed.
 
+Lemma mA_plain : mA = np_init_model CModel [2000; 2001; 2002]%Z false RFloat fl0 ["X"; "Y"; "Z"] (resolve_kwargs am3
+                       [("B", ints [1; 2; 3]%Z); ("Z", OScalar (PInt 7)); ("X", ints [4; 5; 6]%Z)]).
+Proof. vm_compute. reflexivity. Qed.
+
 Example mA_inv : Inv (fst mA).
 Proof.
+  rewrite mA_plain.
   apply (inv_init_model_fst np_pycast np_arrcast np_infer np_astype_dt); [discriminate | vm_compute; reflexivity].
 Qed.
 
@@ -113,22 +118,31 @@ Proof.
     contradiction.
 Qed.
 
-(* ---- kept finding: an alias named like an existing variable (the constructor does not check this).  Variable Z is
-   shadowed: its column is filled with Y's data AND both columns are titled Z: a data column changed and duplicated *)
-Definition amZ : aobj := mkAobj [("Z", "Y")] [].
+(* ---- the repaired defect (fix 4e03fd0): an alias named like a variable, like an attribute of the object, or like the status column
+   is refused by the constructor *)
+Example clashing_aliases_rejected :
+  snd (alias_init_model [] (mkAobj [("Z", "Y")] []) CModel [2000; 2001; 2002]%Z false RFloat fl0 ["X"; "Y"; "Z"] []) = Raise InitialisationError /\
+  snd (alias_init_model [] (mkAobj [("lags", "X")] []) CModel [2000; 2001; 2002]%Z false RFloat fl0 ["X"; "Y"; "Z"] []) = Raise InitialisationError /\
+  snd (alias_init_model [] (mkAobj [("status", "X")] []) CModel [2000; 2001; 2002]%Z false RFloat fl0 ["X"; "Y"; "Z"] []) = Raise InitialisationError /\
+  snd (alias_init_model ["solve"] (mkAobj [("solve", "X")] []) CModel [2000; 2001; 2002]%Z false RFloat fl0 ["X"; "Y"; "Z"] []) = Raise InitialisationError /\
+  snd (alias_init_model ["solve"] (mkAobj [("A", "X")] []) CModel [2000; 2001; 2002]%Z false RFloat fl0 ["X"; "Y"; "Z"] []) = Ret tt.
+Proof. vm_compute. repeat split. Qed.
 
-Theorem alias_named_like_variable_refuted :
-  exists am s l,
-    alias_construct [("Z", "Y")] [] = Ret am /\ WFam am /\ NoDup (akeys (amap am)) /\ Inv s /\
-    names s = ["X"; "Y"; "Z"] /\
-    export am s = Ret l /\
-    map fst l = ["X"; "Z"; "Z"; "status"; "iterations"] /\       (* duplicated title *)
-    map snd l = ["X"; "Y"; "Y"; "status"; "iterations"].         (* column Z no longer holds Z *)
+(* ---- kept finding: the one door left open - add_variable (not wrapped by the mixin) accepts the name of an alias AFTER
+   construction; the new variable A is then unreachable by name (m['A'] is X) and exported twice under the title A *)
+Theorem add_variable_alias_name_refuted :
+  exists am s o l,
+    WFam am /\ NoDup (akeys (amap am)) /\ Inv s /\ In "A" (akeys (amap am)) /\ o = AddVariable "A" (OScalar (PInt 9)) None /\
+    snd (alias_step am o s) = Ret tt /\
+    export am (fst (alias_step am o s)) = Ret l /\
+    ~ NoDup (map fst l) /\
+    alias_getitem am (KName "A") (fst (alias_step am o s)) = alias_getitem am (KName "X") (fst (alias_step am o s)).
 Proof.
-  exists amZ, (fst mA), [("X", "X"); ("Z", "Y"); ("Z", "Y"); ("status", "status"); ("iterations", "iterations")].
-  split; [vm_compute; reflexivity|]. split; [split; vm_compute; [reflexivity|constructor]|].
-  split; [vm_compute; repeat constructor; intros []|]. split; [exact mA_inv|].
-  vm_compute. repeat split.
+  exists am3, (fst mA), (AddVariable "A" (OScalar (PInt 9)) None).
+  eexists. split; [exact (proj1 am3_wf)|]. split; [exact (proj2 am3_wf)|]. split; [exact mA_inv|].
+  split; [vm_compute; left; reflexivity|]. split; [reflexivity|]. split; [vm_compute; reflexivity|].
+  split; [vm_compute; reflexivity|]. split; [|vm_compute; reflexivity].
+  vm_compute. intros ND. inversion ND as [|? ? H1 ND1]; subst. apply H1. simpl. auto 10.
 Qed.
 
 (* the hypotheses of preferred_title are satisfiable (A is the preferred name of X, declared through a chain of three) *)
@@ -186,23 +200,6 @@ Proof.
     destruct (in_dec string_dec x (map fst (vars (fst mA)))) as [I|N]; [exact I|].
     exfalso. apply H. apply assoc_none_iff. exact N.
   - eexists. split; [vm_compute; reflexivity|]. vm_compute. repeat split.
-Qed.
-
-(* ---- kept finding: an alias named like an ATTRIBUTE of the object (ALIASES = {'lags': 'X'}; `lags` is registered by the constructor).
-   Writing through the name reaches the variable (m.lags = 5 fills X) while the attribute entry - which Python's attribute lookup finds
-   BEFORE __getattr__ is ever asked, so it is what `m.lags` returns - stays what it was: the read does not see the write. *)
-Theorem alias_named_like_attribute_refuted :
-  exists am s v,
-    alias_construct [("lags", "X")] [] = Ret am /\ WFam am /\ Inv s /\
-    reg_mem "lags" (registry s) = true /\ assoc "lags" (adict s) = Some (OScalar (PInt 0)) /\
-    snd (alias_step am (SetAttr "lags" v None) s) = Ret tt /\
-    assoc "X" (vars (fst (alias_step am (SetAttr "lags" v None) s))) <> assoc "X" (vars s) /\
-    assoc "lags" (adict (fst (alias_step am (SetAttr "lags" v None) s))) = Some (OScalar (PInt 0)) /\
-    alias_getitem am (KName "lags") (fst (alias_step am (SetAttr "lags" v None) s)) = Ret [PFlt (FHalf 10); PFlt (FHalf 10); PFlt (FHalf 10)]%Z.
-Proof.
-  exists (mkAobj [("lags", "X")] []), (fst mA), (OScalar (PInt 5)).
-  split; [vm_compute; reflexivity|]. split; [split; vm_compute; [reflexivity|constructor]|]. split; [exact mA_inv|].
-  vm_compute. repeat split. intros C. discriminate C.
 Qed.
 
 (* export with other column selections: to_dataframe(use_aliases=True, status=False, include_internal=True) *)
